@@ -12,6 +12,7 @@ Section Proofs.
   Variable kof : line -> key.
   Variable sub_of : key -> line -> bool.
   Variable kpfx : key -> bool.
+  Variable vis : line -> list line.
   Variable nl : line -> line.
   Variable key_line : key -> line.
   Variable path_line sep_line : line.
@@ -80,7 +81,8 @@ Section Proofs.
   (* ---------------------------------------------------------------- structured files *)
   Notation item := (item line).
   Notation flatten := (@flatten line).
-  Notation disk := (disk T kof).
+  Notation disk := (disk T kof vis).
+  Notation written_items := (written_items T kof).
   Notation pair_keys := (pair_keys kof).
 
   Definition collected (U : key -> list line) (I : list item) : tags :=
@@ -92,7 +94,7 @@ Section Proofs.
   (* well-formedness of a fresh file (all conditions are boolean and evaluated on every real run) *)
   Definition wf_item (it : item) : Prop :=
     match it with
-    | Plain l => is_tag (T l) = false /\ kpfx (kof l) = false
+    | Plain l => (forall x, In x (vis l) -> is_tag x = false) /\ kpfx (kof l) = false
     | Pair o c => is_tag (T o) = true /\ is_tag (T c) = true /\
                   kof (T o) = kof o /\ kof c = kof o /\ kpfx (kof o) = true
     end.
@@ -138,8 +140,16 @@ Section Proofs.
   Lemma disk_pair U o c I : disk U (Pair o c :: I) = T o :: (U (kof o) ++ T c :: disk U I).
   Proof. unfold disk. simpl. rewrite <- app_assoc. reflexivity. Qed.
 
-  Lemma disk_plain U l I : disk U (Plain l :: I) = T l :: disk U I.
+  Lemma disk_plain U l I : disk U (Plain l :: I) = vis l ++ disk U I.
   Proof. reflexivity. Qed.
+
+  Lemma collect_plain_lines (B : list line) k acc : (forall l, In l B -> is_tag l = false) ->
+    cfrom (mkC false k [] acc) B = mkC false k [] acc.
+  Proof.
+    induction B as [|l B IH]; intros HB; [reflexivity|].
+    rewrite cfrom_cons, step_plain by (apply HB; left; reflexivity).
+    apply IH. intros; apply HB; right; assumption.
+  Qed.
 
   Lemma collect_disk U I : Forall wf_item I -> user_ok U ->
     forall k0 acc, (forall k, In k (pair_keys I) -> ~ In k (keys acc)) -> NoDup (pair_keys I) ->
@@ -148,7 +158,7 @@ Section Proofs.
     intros Hwf HU. induction Hwf as [|it I Hit Hwf IH]; intros k0 acc Hdisj Hnd.
     - exists k0. simpl. rewrite app_nil_r. reflexivity.
     - destruct it as [l|o c].
-      + destruct Hit as [H1 H2]. rewrite disk_plain, cfrom_cons, step_plain by assumption.
+      + destruct Hit as [H1 H2]. rewrite disk_plain, cfrom_app, collect_plain_lines by assumption.
         apply IH; assumption.
       + destruct Hit as (Ho & Hc & Hko & Hkc & Hp).
         simpl in Hnd. inversion Hnd as [|? ? Hnotin Hnd']; subst.
@@ -326,9 +336,17 @@ Section Proofs.
       intros k Hk. apply H. right; assumption.
   Qed.
 
-  Lemma written_emplaced tg I' : map T (emplaced tg I') = disk (fun k => map T (body tg k)) I'.
+  Lemma written_ext U1 U2 I : (forall k, In k (pair_keys I) -> U1 k = U2 k) -> written_items U1 I = written_items U2 I.
   Proof.
-    unfold emplaced, disk. induction I' as [|[l|o c] I' IH].
+    induction I as [|[l|o c] I IH]; simpl; intros H; [reflexivity| |].
+    - rewrite IH by assumption. reflexivity.
+    - rewrite (H (kof o)) by (left; reflexivity). rewrite IH; [reflexivity|].
+      intros k Hk. apply H. right; assumption.
+  Qed.
+
+  Lemma written_emplaced tg I' : map T (emplaced tg I') = written_items (fun k => map T (body tg k)) I'.
+  Proof.
+    unfold emplaced, PreserveCore.written_items. induction I' as [|[l|o c] I' IH].
     - reflexivity.
     - cbn [flat_map]. rewrite map_app, IH. reflexivity.
     - cbn [flat_map]. rewrite map_app, IH. f_equal. cbn [map]. rewrite map_app. reflexivity.
@@ -347,7 +365,7 @@ Section Proofs.
     wf I -> user_ok U -> Forall wf_fresh_item I' ->
     (forall k l, In l (U k) -> T l = l) ->
     regen_one k0 (flatten I') (disk U I)
-    = (disk (fun k => if memk k (pair_keys I) then U k else []) I',
+    = (written_items (fun k => if memk k (pair_keys I) then U k else []) I',
        map T (flat_map (fun kb => lost_entry (fst kb) (snd kb))
                 (filter (is_lost (used_keys (collected U I) I')) (collected U I)))).
   Proof.
@@ -355,7 +373,7 @@ Section Proofs.
     rewrite (collect_file_disk U I k0 HwfI HU).
     rewrite (emplace_lines_items (collected U I) I' HwfI' (wf_keys_pfx U I (proj1 HwfI))).
     f_equal.
-    - unfold written. rewrite written_emplaced. apply disk_ext. intros k _.
+    - unfold written. rewrite written_emplaced. apply written_ext. intros k _.
       rewrite (body_collected U I k (proj2 HwfI)).
       destruct (memk k (pair_keys I)); [|reflexivity]. apply map_T_fixed. apply HT.
     - unfold written. rewrite lost_code_spec. reflexivity.
@@ -365,12 +383,12 @@ Section Proofs.
      produces no LostCode. *)
   Theorem regen_fixed_point U I k0 :
     wf I -> user_ok U -> (forall k l, In l (U k) -> T l = l) ->
-    regen_one k0 (flatten I) (disk U I) = (disk U I, []).
+    regen_one k0 (flatten I) (disk U I) = (written_items U I, []).
   Proof.
     intros HwfI HU HT.
     rewrite (regen_evolution U I I k0 HwfI HU (Forall_impl _ wf_item_fresh (proj1 HwfI)) HT).
     f_equal.
-    - apply disk_ext. intros k Hk. apply memk_In in Hk. rewrite Hk. reflexivity.
+    - apply written_ext. intros k Hk. apply memk_In in Hk. rewrite Hk. reflexivity.
     - assert (Hf : forall tg, (forall kb, In kb tg -> In kb (collected U I)) ->
                    filter (is_lost (used_keys (collected U I) I)) tg = []).
       { induction tg as [|[k b] tg IHtg]; intros Hsub; [reflexivity|].
